@@ -24,7 +24,7 @@ def stage(ctx, n, suffix="", off=0, extra_env=None):
 
 
 def run(ctx):
-    n = {"quick": 110, "thorough": 0}[ctx.tier]
+    n = {"quick": 90, "thorough": 0}[ctx.tier]
 
     def stages(ctx, mult, suffix, off):
         stage(ctx, n * mult, suffix, off)
